@@ -13,6 +13,8 @@ import Proofs.Traverse
 import Proofs.ResolveNodes
 import Proofs.ChildAt
 import Proofs.SepSpec
+import PM.FragOps
+import Proofs.FragOps
 namespace PM.C09
 open PM
 
@@ -1072,5 +1074,106 @@ example : TextBlocks (default : Schema)
 example : joinBlocks [10]
     [.elem 1 [] [] [.text [97] []], .elem 1 [] [] [], .elem 1 [] [] [.text [98, 99] []]] =
     [97, 10, 98, 99] := by decide
+
+/-! ### fragment accessors: `child`, `maybe_child`, `first_child`, `last_child`, `find_index` on the `Fragment` object
+
+`Frag` (PM/FragOps.lean) carries the stored `size`; `child` is a bare Python list read (a negative index wraps
+around), `maybe_child` is guarded, `find_index` reads the stored size for its end / range tests.
+Tied exactly by harness/props/c02_frag.py (requests `foChildren`, `foFindIndex`). -/
+
+/-- `child(i)` for `i ≥ 0`: the `i`-th child, `IndexError` beyond the end -/
+theorem child_spec (f : Frag) (i : Nat) : f.child (i : Int) = orIndexError f.content[i]? := Frag.child_nat f i
+
+/-- `child(-k)`, `k ≥ 1`: **not guarded** — it is the `k`-th child from the end (`IndexError` only if `k` exceeds the
+    child count); the code relies on callers never passing a negative index -/
+theorem child_negative (f : Frag) (k : Nat) (hk : 0 < k) :
+    f.child (-(k : Int)) = (if k ≤ f.content.length then orIndexError f.content[f.content.length - k]?
+      else .error .internal) := Frag.child_neg f k hk
+
+/-- in particular `child(-1)` is `last_child` (an `IndexError` on the empty fragment) -/
+theorem child_minus_one (f : Frag) : f.child (-1) = orIndexError f.lastChild := Frag.child_neg_one f
+
+/-- `maybe_child` is guarded: a negative index is "no such child" -/
+theorem maybeChild_negative (f : Frag) (i : Int) (h : i < 0) : f.maybeChild i = none := by
+  unfold Frag.maybeChild; rw [if_pos h]
+
+/-- `maybe_child(i)` is the `i`-th child exactly for `0 ≤ i < child_count`, and never raises -/
+theorem maybeChild_spec (f : Frag) (i : Int) (n : Node) :
+    f.maybeChild i = some n ↔ 0 ≤ i ∧ f.content[i.toNat]? = some n := by
+  unfold Frag.maybeChild
+  by_cases h : i < 0
+  · rw [if_pos h]; simp; omega
+  · rw [if_neg h]; simp; omega
+
+theorem maybeChild_isSome (f : Frag) (i : Int) :
+    (f.maybeChild i).isSome = true ↔ 0 ≤ i ∧ i < f.childCount := by
+  unfold Frag.maybeChild Frag.childCount
+  by_cases h : i < 0
+  · rw [if_pos h]; simp; omega
+  · rw [if_neg h]; simp; omega
+
+/-- on non-negative indices `child` and `maybe_child` agree (`None` ↔ `IndexError`) -/
+theorem child_eq_maybeChild (f : Frag) (i : Int) (h : 0 ≤ i) : f.child i = orIndexError (f.maybeChild i) := by
+  obtain ⟨k, rfl⟩ := Int.eq_ofNat_of_zero_le h
+  rw [Frag.child_nat]
+  unfold Frag.maybeChild
+  have : ¬ ((k : Int) < 0) := by omega
+  rw [if_neg this]; simp
+
+theorem firstChild_spec (f : Frag) : f.firstChild = f.maybeChild 0 := by
+  unfold Frag.firstChild Frag.maybeChild; simp [List.head?_eq_getElem?]
+
+theorem lastChild_spec (f : Frag) : f.lastChild = f.maybeChild ((f.childCount : Int) - 1) := by
+  unfold Frag.lastChild Frag.maybeChild Frag.childCount
+  cases hc : f.content with
+  | nil => simp
+  | cons a as =>
+    rw [List.getLast?_eq_getElem?]
+    have : ¬ (((a :: as).length : Int) - 1 < 0) := by simp
+    rw [if_neg this]
+    congr 1
+    simp
+
+/-- **`find_index`** of the object (stored size, absolute positions, rounding down: the default `round = -1`) on a
+    fragment whose cache is right and whose children all have non-zero size is the list-level `findIndex` that the
+    `resolve` theorems above are about; `none` is the `ValueError` "Position outside of fragment" -/
+theorem findIndex_exact (f : Frag) (hf : f.WF) (hz : ∀ c, c ∈ f.content → c.size ≠ 0) (pos : Nat) (round : Int)
+    (hr : round ≤ 0) :
+    f.findIndex pos round = (match findIndex f.content pos with
+      | some (i, o) => .ok (i, (o : Int))
+      | none => .error .valueError) := Frag.findIndex_eq f hf hz pos round hr
+
+/-- it returns for every position inside (children of size 0 or not) -/
+theorem findIndex_total (f : Frag) (hf : f.WF) (pos : Nat) (round : Int) (hr : round ≤ 0)
+    (hp : pos ≤ fsize f.content) : ∃ i o, f.findIndex pos round = .ok (i, o) :=
+  Frag.findIndex_total f hf pos round hr hp
+
+/-- **`find_index` with either rounding, strictly inside**: with `k` the first child whose end reaches `pos` (it
+    exists), the answer is index `k + 1` / that child's end when `pos` is that end or `round > 0`, and index `k` / the
+    child's start otherwise -/
+theorem findIndex_spec (f : Frag) (hf : f.WF) (pos : Nat) (round : Int) (h0 : 0 < pos) (h1 : pos < fsize f.content) :
+    ∃ k n, f.content[k]? = some n ∧ fsize (f.content.take k) < pos ∧ pos ≤ fsize (f.content.take k) + n.size ∧
+      f.findIndex pos round =
+        .ok (if pos = fsize (f.content.take k) + n.size ∨ round > 0
+          then (k + 1, ((fsize (f.content.take k) + n.size : Nat) : Int))
+          else (k, ((fsize (f.content.take k) : Nat) : Int))) :=
+  Frag.findIndex_spec f hf pos round h0 h1
+
+/-- … and at the two ends, whatever the rounding (and whatever the stored size, for position 0) -/
+theorem findIndex_ends (f : Frag) (round : Int) :
+    f.findIndex 0 round = .ok (0, 0) ∧ (f.size ≠ 0 → f.findIndex f.size round = .ok (f.content.length, f.size)) := by
+  unfold Frag.findIndex
+  exact ⟨by simp, fun h => by rw [if_neg h, if_pos rfl]⟩
+
+/-- a negative position is refused with `ValueError` unless it happens to equal a (stale, negative) stored size -/
+theorem findIndex_negative (f : Frag) (pos round : Int) (h : pos < 0) (hs : pos ≠ f.size) :
+    f.findIndex pos round = .error .valueError := by
+  unfold Frag.findIndex
+  rw [if_neg (by omega), if_neg hs, if_pos (Or.inr h)]
+
+/-- with a stale cache the scan can run off the end of the child list: `IndexError`, not `ValueError` -/
+example : Frag.findIndex ⟨[.leaf 0 [] []], 5⟩ 3 = .error .internal := by rfl
+example : Frag.findIndex ⟨[.leaf 0 [] [], .leaf 0 [] []], 2⟩ 1 = .ok (1, 1) := by rfl
+
 
 end PM.C09
